@@ -7,6 +7,7 @@ require (
 	github.com/hashicorp/go-slug v0.0.0
 	github.com/hashicorp/terraform-registry-address v0.2.0
 	github.com/hashicorp/terraform-svchost v0.0.1
+	golang.org/x/sys v0.13.0
 )
 
 require (
